@@ -27,7 +27,7 @@ COMPONENTS = {"real": ["reb_simulation_integrate_raw, reb_check_exit, reb_run_he
               "simulated": ["events between steps (heartbeat seam: user stop at a chosen boundary)", "call partition (re-entry with the previous call's leftovers)", "wall clock"]}
 ASSUMPTIONS = ["(t0, dt, tmax) triples are input draws (not simulation); the event / re-entry dimension is what the seeded schedule explores",
                "splitting clause only for fixed-step integrators in safe mode with exact_finish_time=0 (C09 allows rounding-level differences when a deferred half step is closed early)"]
-PROBES = ["first_step_is_last", "dt_larger_than_interval", "target_behind", "target_equal", "multi_call", "user_stop_event", "escape_event", "no_particles_event", "adaptive_shrunk_last_step", "backward"]
+PROBES = ["stop_on_shortened_last_step", "first_step_is_last", "dt_larger_than_interval", "target_behind", "target_equal", "multi_call", "user_stop_event", "escape_event", "no_particles_event", "adaptive_shrunk_last_step", "backward"]
 
 FIXED = ["whfast", "saba", "leapfrog", "janus", "eos", "sei", "none", "mercurius"]
 ADAPTIVE = ["ias15", "bs", "trace"]
@@ -208,6 +208,11 @@ def execute(case, ctx):
             break
         if stopped:
             probe("user_stop_event")
+            # the step size is the user's again whatever ended the call (the stop may have landed on the shortened last step)
+            if fixed and struct.pack("<d", dt_a) != struct.pack("<d", math.copysign(abs(dt_b), s)):
+                viol("dt", "user step size not restored", "%s: stopped by the user at steps_done=%d; dt %r -> %r (expected %r)" % (tag, sd_a, dt_b, dt_a, math.copysign(abs(dt_b), s)), key="dt:restore:after-stop")
+            if fixed and len(hb) >= 2 and abs(hb[-1]["t"] - hb[-2]["t"]) < abs(dt_b) * (1 - 1e-9):
+                probe("stop_on_shortened_last_step")
             ended = "stop"
             break
         # ---- (d) no-op --------------------------------------------------------------------------------
